@@ -4,6 +4,7 @@
 
 use crate::util::*;
 use easy_ml::matrices::slices::{self, Slice, Slice2D};
+use easy_ml::matrices::views::{DataLayout, MatrixMut, MatrixRef, MatrixView};
 use easy_ml::matrices::Matrix;
 
 // ---------------------------------------------------------------------------------------------
@@ -1359,7 +1360,118 @@ fn gen_slice_algebra(g: &mut Gen) {
     }
 }
 
+/// The iterator entry points of `Matrix` (`api iter <name> [index]`).
+const ITER_ENTRY_POINTS: [(&str, bool); 20] = [
+    ("row_major_iter", false),
+    ("row_major_iter.with_index", false),
+    ("row_major_reference_iter", false),
+    ("row_major_reference_iter.with_index", false),
+    ("row_major_reference_mut_iter", false),
+    ("row_major_owned_iter", false),
+    ("column_major_iter", false),
+    ("column_major_iter.with_index", false),
+    ("column_major_reference_iter", false),
+    ("column_major_reference_mut_iter", false),
+    ("column_major_owned_iter", false),
+    ("diagonal_iter", false),
+    ("diagonal_reference_iter", false),
+    ("diagonal_reference_mut_iter", false),
+    ("row_iter", true),
+    ("row_reference_iter", true),
+    ("row_reference_mut_iter", true),
+    ("column_iter", true),
+    ("column_reference_iter", true),
+    ("column_reference_mut_iter", true),
+];
+
+/// The API surface: every public method and trait impl of `Matrix` in C11's scope, driven on a
+/// NON-SQUARE matrix, at row / column indexes >= 1, after a history (cases tagged `tag=api`;
+/// props/c11_extra.py checks the table props/c11_api_surface.json against a scan of the source
+/// and against these lines).
+fn gen_api_surface(g: &mut Gen) {
+    let mut counter = 50u64;
+    let mut k = 0usize;
+    // square starts (the only sizes `from_scalar`, `unit`, `diagonal`, `from_diagonal` can build)
+    // become non-square through the history below
+    for (r, c) in [(2usize, 3usize), (3, 2), (1, 4), (4, 1), (2, 5), (1, 1), (3, 3)] {
+        for start in start_lines(r, c) {
+            k += 1;
+            g.op(format!("{} tag=api", start.0));
+            g.count("api.case");
+            let mut s = Size { r, c };
+            // a history first: grow, shrink, retain, transpose, write
+            let history = vec![
+                GOp::InsertRowWith(1.min(s.r), fresh(&mut counter, s.c)),
+                GOp::InsertColumn(s.c, fresh(&mut counter, 1)[0]),
+                GOp::RemoveColumn(0),
+                GOp::Retain(k % 2 == 0, Sl::All, Sl::All),
+                GOp::TransposeMut,
+                GOp::Transpose,
+                GOp::Set(1, s.c - 1, fresh(&mut counter, 1)[0], k % 2 == 0),
+                GOp::MapMut(1000),
+                GOp::InsertRow(s.r + 1, fresh(&mut counter, 1)[0]),
+            ];
+            for op in history {
+                g.op(op.line());
+                s = op.after(s);
+            }
+            // now every method / impl, at indexes >= 1 (the matrix is (r+2) x c here: non-square)
+            let (lr, lc) = (s.r - 1, s.c - 1);
+            g.op("accepts and(not(single(1)),or(range(1,3),single(0))) 6".to_string());
+            g.op(format!("accepts2d rows=not(single(0)) cols=or(single(1),range(2,9)) {} {}", s.r, s.c));
+            g.op("api display".to_string());
+            g.op("api clone_from".to_string());
+            g.op("api into_tensor row column".to_string());
+            g.op("api into_tensor x x".to_string());
+            for (i, j) in [(1, lc), (lr, 0), (lr, lc), (s.r, 0), (1, s.c), (lc.max(1), lr)] {
+                g.op(format!("api matrix_ref {} {}", i, j));
+            }
+            for (name, indexed) in ITER_ENTRY_POINTS {
+                if indexed {
+                    let n = if name.starts_with("row_") { s.r } else { s.c };
+                    for idx in [1.min(n - 1), n - 1, n] {
+                        g.op(format!("api iter {} {}", name, idx));
+                    }
+                } else {
+                    g.op(format!("api iter {}", name));
+                }
+                g.count(&format!("api.iter.{}", name));
+            }
+            getter_lines(g, s, true);
+            g.op("scalar".to_string());
+            g.op("try_into_scalar".to_string());
+            eq_lines(g, s, 7);
+            for (via, i, j) in [("trait", 1, lc), ("box_dyn", lr, 1.min(lc)), ("trait", s.r, 0), ("box_dyn", 1, s.c)] {
+                g.op(format!("try_set {} {} {} via={}", i, j, fresh(&mut counter, 1)[0], via));
+            }
+            g.op(format!("set {} {} {} via=set", lr, lc, fresh(&mut counter, 1)[0]));
+            g.op(format!("set 1 {} {} via=get_reference_mut", lc, fresh(&mut counter, 1)[0]));
+            // every mutating method once more at a row / column index >= 1 on this non-square matrix
+            let tail = vec![
+                GOp::InsertRow(1, fresh(&mut counter, 1)[0]),
+                GOp::InsertRowWith(s.r, fresh(&mut counter, s.c)),
+                GOp::InsertColumn(1.min(s.c), fresh(&mut counter, 1)[0]),
+                GOp::InsertColumnWith(s.c + 1, fresh(&mut counter, s.r + 2)),
+                GOp::RemoveRow(1),
+                GOp::RemoveColumn(1),
+                GOp::MapMutWithIndex(100),
+                GOp::Map(2000),
+                GOp::MapWithIndex(300),
+                GOp::Retain(true, Sl::Not(Box::new(Sl::Single(0))), Sl::Range(1, 9)),
+                GOp::Retain(false, Sl::Range(1, 9), Sl::All),
+            ];
+            for op in tail {
+                g.op(op.line());
+                s = op.after(s);
+            }
+            g.op("api display".to_string());
+            g.op("api iter column_major_owned_iter".to_string());
+        }
+    }
+}
+
 pub fn gen(g: &mut Gen) {
+    gen_api_surface(g);
     gen_capacity(g);
     gen_shared_supply(g);
     gen_slice_algebra(g);
@@ -1976,6 +2088,178 @@ impl Runner {
                 Err(k) => format!("clone-panicked {}", k.as_str()),
             };
         }
+        if toks[0] == "api" {
+            let m: &Matrix<u64> = m;
+            let usz = |i: usize| toks.get(i).map(|t| t.parse::<usize>().expect("usize")).unwrap_or(0);
+            return match toks[1] {
+                "display" => {
+                    let plain = format!("{}", m);
+                    let precise = format!("{:.3}", m);
+                    let via_string = m.to_string();
+                    if plain != precise || plain != via_string {
+                        format!("text=forms-disagree({:?},{:?})", plain, precise)
+                    } else {
+                        format!("text={}", plain.replace('\n', "|").replace(' ', "_"))
+                    }
+                }
+                "clone_from" => {
+                    let mut target = Matrix::from_scalar(0u64);
+                    match catch(|| target.clone_from(m)) {
+                        Ok(()) => observe(&target).0,
+                        Err(k) => format!("panic ## kind={}", k.as_str()),
+                    }
+                }
+                "into_tensor" => {
+                    let (rn, cn) = (intern(toks[2]), intern(toks[3]));
+                    let a = catch(|| m.clone().into_tensor(rn, cn));
+                    let b = catch(|| <easy_ml::tensors::Tensor<u64, 2> as TryFrom<(Matrix<u64>, [&'static str; 2])>>::try_from((m.clone(), [rn, cn])));
+                    let show = |t: &Result<Result<easy_ml::tensors::Tensor<u64, 2>, _>, PanicKind>| match t {
+                        Ok(Ok(t)) => {
+                            let sh = t.shape();
+                            let data: Vec<u64> = t.iter().collect();
+                            format!("shape={}:{},{}:{} data={}", sh[0].0, sh[0].1, sh[1].0, sh[1].1, show_vals(&data))
+                        }
+                        Ok(Err(_)) => "err".to_string(),
+                        Err(k) => format!("panic({})", k.as_str()),
+                    };
+                    let (sa, sb) = (show(&a), show(&b));
+                    if sa == sb {
+                        sa
+                    } else {
+                        format!("forms-disagree({} / {})", sa, sb)
+                    }
+                }
+                "matrix_ref" => {
+                    let (r, c) = (usz(2), usz(3));
+                    // the trait methods on Matrix itself, through Box<dyn MatrixRef>, through
+                    // Box<dyn MatrixMut>, through a MatrixView
+                    fn probe<S: MatrixRef<u64>>(s: &S, r: usize, c: usize) -> String {
+                        let got = s.try_get_reference(r, c).copied();
+                        let unchecked = if r < s.view_rows() && c < s.view_columns() {
+                            Some(unsafe { *s.get_reference_unchecked(r, c) })
+                        } else {
+                            None
+                        };
+                        let get = match (got, unchecked) {
+                            (Some(a), Some(b)) if a == b => format!("some({})", a),
+                            (None, None) => "none".to_string(),
+                            other => format!("checked-unchecked-disagree({:?})", other),
+                        };
+                        let layout = match s.data_layout() {
+                            DataLayout::RowMajor => "row_major",
+                            DataLayout::ColumnMajor => "column_major",
+                            _ => "other",
+                        };
+                        format!("get={} size={}x{} layout={}", get, s.view_rows(), s.view_columns(), layout)
+                    }
+                    let direct = probe(m, r, c);
+                    let boxed_ref: Box<dyn MatrixRef<u64>> = Box::new(m.clone());
+                    let boxed_mut: Box<dyn MatrixMut<u64>> = Box::new(m.clone());
+                    let view = MatrixView::from(m);
+                    let view_get = match catch(|| view.get(r, c)) {
+                        Ok(v) => format!("some({})", v),
+                        Err(_) => "none".to_string(),
+                    };
+                    let others = [probe(&boxed_ref, r, c), probe(&boxed_mut, r, c), probe(&m, r, c)];
+                    if others.iter().all(|o| *o == direct) && direct.starts_with(&format!("get={} ", view_get)) {
+                        direct
+                    } else {
+                        format!("routes-disagree({} / {:?} / view={})", direct, others, view_get)
+                    }
+                }
+                "iter" => {
+                    let name = toks[2];
+                    let idx = usz(3);
+                    let mut copy = m.clone();
+                    let got = catch(|| -> Vec<u64> {
+                        match name {
+                            "row_major_iter" => m.row_major_iter().collect(),
+                            "row_major_iter.with_index" => m.row_major_iter().with_index().map(|(_, x)| x).collect(),
+                            "row_major_reference_iter" => m.row_major_reference_iter().cloned().collect(),
+                            "row_major_reference_iter.with_index" => {
+                                m.row_major_reference_iter().with_index().map(|(_, x)| *x).collect()
+                            }
+                            "row_major_reference_mut_iter" => copy.row_major_reference_mut_iter().map(|x| *x).collect(),
+                            "row_major_owned_iter" => copy.clone().row_major_owned_iter().collect(),
+                            "column_major_iter" => m.column_major_iter().collect(),
+                            "column_major_iter.with_index" => {
+                                m.column_major_iter().with_index().map(|(_, x)| x).collect()
+                            }
+                            "column_major_reference_iter" => m.column_major_reference_iter().cloned().collect(),
+                            "column_major_reference_mut_iter" => {
+                                copy.column_major_reference_mut_iter().map(|x| *x).collect()
+                            }
+                            "column_major_owned_iter" => copy.clone().column_major_owned_iter().collect(),
+                            "diagonal_iter" => m.diagonal_iter().collect(),
+                            "diagonal_reference_iter" => m.diagonal_reference_iter().cloned().collect(),
+                            "diagonal_reference_mut_iter" => copy.diagonal_reference_mut_iter().map(|x| *x).collect(),
+                            "row_iter" => m.row_iter(idx).collect(),
+                            "row_reference_iter" => m.row_reference_iter(idx).cloned().collect(),
+                            "row_reference_mut_iter" => copy.row_reference_mut_iter(idx).map(|x| *x).collect(),
+                            "column_iter" => m.column_iter(idx).collect(),
+                            "column_reference_iter" => m.column_reference_iter(idx).cloned().collect(),
+                            "column_reference_mut_iter" => copy.column_reference_mut_iter(idx).map(|x| *x).collect(),
+                            other => panic!("unknown iterator entry point {}", other),
+                        }
+                    });
+                    // the index reported by with_index must be the position of the element
+                    let index_ok = match name {
+                        "row_major_iter.with_index" => m
+                            .row_major_iter()
+                            .with_index()
+                            .all(|((i, j), x)| catch(|| m.get(i, j)) == Ok(x)),
+                        "column_major_iter.with_index" => m
+                            .column_major_iter()
+                            .with_index()
+                            .all(|((i, j), x)| catch(|| m.get(i, j)) == Ok(x)),
+                        "row_major_reference_iter.with_index" => m
+                            .row_major_reference_iter()
+                            .with_index()
+                            .all(|((i, j), x)| catch(|| m.get(i, j)) == Ok(*x)),
+                        _ => true,
+                    };
+                    match got {
+                        Ok(v) if index_ok => format!("vals={}", show_vals(&v)),
+                        Ok(v) => format!("vals={} index-wrong", show_vals(&v)),
+                        Err(k) => format!("panic ## kind={}", k.as_str()),
+                    }
+                }
+                _ => "bad-op".into(),
+            };
+        }
+        if toks[0] == "try_set" {
+            let (r, c): (usize, usize) = (toks[1].parse().unwrap(), toks[2].parse().unwrap());
+            let v: u64 = toks[3].parse().unwrap();
+            let wrote = if opt_arg("via", toks) == Some("box_dyn") {
+                // through Box<dyn MatrixMut>: the matrix is moved into the box and back out of a view
+                let owned = std::mem::replace(m, Matrix::from_scalar(0));
+                let mut boxed: Box<dyn MatrixMut<u64>> = Box::new(owned);
+                let wrote = match boxed.try_get_reference_mut(r, c) {
+                    Some(cell) => {
+                        *cell = v;
+                        true
+                    }
+                    None => false,
+                };
+                // read everything back through the erased trait object
+                let (rows, cols) = (boxed.view_rows(), boxed.view_columns());
+                let data: Vec<u64> = (0..rows)
+                    .flat_map(|i| (0..cols).map(move |j| (i, j)))
+                    .map(|(i, j)| *boxed.try_get_reference(i, j).expect("in range"))
+                    .collect();
+                *m = Matrix::from_flat_row_major((rows, cols), data);
+                wrote
+            } else {
+                match MatrixMut::try_get_reference_mut(m, r, c) {
+                    Some(cell) => {
+                        *cell = v;
+                        true
+                    }
+                    None => false,
+                }
+            };
+            return format!("{} {}", if wrote { "some" } else { "none" }, answer(Ok(()), m));
+        }
         if toks[0] == "eq_after" {
             let mut copy = match catch(|| m.clone()) {
                 Ok(c) => c,
@@ -1983,11 +2267,21 @@ impl Runner {
             };
             return match apply(&mut copy, &toks[1..]) {
                 Some(_) => {
-                    let (a, b) = (*m == copy, copy == *m);
-                    if a == b {
-                        format!("eq={}", a)
+                    // Matrix == Matrix (both ways), Matrix == MatrixView, MatrixView == Matrix,
+                    // MatrixView == MatrixView, and `!=`
+                    let m: &Matrix<u64> = m;
+                    let forms = [
+                        *m == copy,
+                        copy == *m,
+                        *m == MatrixView::from(&copy),
+                        MatrixView::from(&copy) == *m,
+                        MatrixView::from(m) == MatrixView::from(&copy),
+                        !(*m != copy),
+                    ];
+                    if forms.iter().all(|f| *f == forms[0]) {
+                        format!("eq={}", forms[0])
                     } else {
-                        format!("eq=asymmetric({},{})", a, b)
+                        format!("eq=forms-disagree({:?})", forms)
                     }
                 }
                 None => "bad-op".into(),
